@@ -2,9 +2,9 @@ package core
 
 import (
 	"fmt"
-	"os"
 	"go/token"
 	"go/types"
+	"os"
 	"sort"
 	"strings"
 
@@ -42,10 +42,10 @@ type EnumInterp struct {
 	AutoFields bool
 	// ClosedWorld: exported functions are assumed to be called only from the analysed packages.
 	ClosedWorld bool
-	fieldSets  map[*types.Var]Set
-	fieldBusy  map[*types.Var]bool
-	retSets    map[*ssa.Function]Set
-	inRet      map[*ssa.Function]bool
+	fieldSets   map[*types.Var]Set
+	fieldBusy   map[*types.Var]bool
+	retSets     map[*ssa.Function]Set
+	inRet       map[*ssa.Function]bool
 }
 
 // NewEnumInterp builds an interpreter for one domain.
@@ -485,7 +485,6 @@ func (ip *EnumInterp) allocStores(al *ssa.Alloc, ctx Ctx) (Set, bool) {
 	}
 	return u, ok
 }
-
 
 // cellResolve: contents of a memory cell rooted at a parameter, as established
 // by the callers (union over call sites, or the context's site).
